@@ -102,12 +102,25 @@ def closure_result_conds(program, closure_term):
     if cb is None:
         return []
     out = []
+    CS = T.Slicer(cb, program)
+
+    def ex(c):
+        # captured variables / closure parameters in condition terms -> origin in the creating body
+        return tuple(T.expand_upvars(program, cb, x) if isinstance(x, tuple) and x and isinstance(x[0], str) else x for x in c)
     for (i, j, t, _c) in TB.return_sites(cb, program):
         t = T.expand_upvars(program, cb, t)
         pol = True
         while t[0] == "unop" and t[1] == "Not":
             t, pol = t[2], not pol
-        out.append([_norm_cmp(x) for x in canon_cond(program, t, pol, None)])
+        if t[0] == "const" and isinstance(t[1], bool):
+            if t[1] != pol:
+                continue            # this exit returns false: not a way for the predicate to hold
+            val = []
+        else:
+            val = [_norm_cmp(x) for x in canon_cond(program, t, pol, None)]
+        # `a && b` returns b on the path where a held: the conditions dominating the exit belong to the predicate
+        dom = [ex(c) for c in canon_conds(program, T.dom_conds(cb, CS, i))]
+        out.append(dom + val)
     return out
 
 
